@@ -41,6 +41,8 @@ type frame struct {
 	env   map[ssa.Value]Value
 	base  map[ssa.Value]Value // read-only values defined before a tabulated loop (naf.go)
 	depth int
+
+	globals map[*ssa.Global]*Ptr // initialiser evaluation: the variable being initialised is a local object
 }
 
 func (fr *frame) get(v ssa.Value) (Value, bool) {
@@ -71,6 +73,32 @@ type Outcome struct {
 	HeadVals []Value
 	HeadFrom *ssa.BasicBlock
 	Frame    *frame
+}
+
+// MaxForks bounds the undecided branches followed both ways by CallAll.
+const MaxForks = 8
+
+// CallAll interprets fn once for every combination of outcomes of its
+// undecided branches (each such branch is followed both ways, without
+// refining the state: an over-approximation of the feasible paths).  build
+// creates a fresh world and arguments for every run.
+func CallAll(fn *ssa.Function, build func() (*World, []Value, *Memory)) ([]*World, []*Outcome) {
+	var ws []*World
+	var outs []*Outcome
+	var rec func(script []bool)
+	rec = func(script []bool) {
+		w, args, mem := build()
+		w.forkScript, w.forkPos = append([]bool{}, script...), 0
+		out := w.Call(fn, args, mem)
+		if out.Branch != nil && len(script) < MaxForks && len(outs) < 1<<MaxForks {
+			rec(append(append([]bool{}, script...), true))
+			rec(append(append([]bool{}, script...), false))
+			return
+		}
+		ws, outs = append(ws, w), append(outs, out)
+	}
+	rec(nil)
+	return ws, outs
 }
 
 // OK reports whether the run completed (returned or was stopped by a hook).
@@ -141,6 +169,9 @@ func (w *World) val(fr *frame, v ssa.Value) Value {
 	case *ssa.Const:
 		return w.constValue(v)
 	case *ssa.Global:
+		if p, ok := fr.globals[v]; ok {
+			return p
+		}
 		return &Ptr{G: v}
 	case *ssa.Function:
 		return &Fn{Func: v}
@@ -235,6 +266,9 @@ func (w *World) exec(fr *frame, mem *Memory, b, pred *ssa.BasicBlock, skipPhis b
 	for {
 		if !skipPhis && pred != nil {
 			phis, vals := w.phiVals(fr, b, pred)
+			if w.OnPhis != nil && fr.depth == 0 && len(phis) > 0 {
+				vals = w.OnPhis(b, pred, phis, vals)
+			}
 			for i, phi := range phis {
 				fr.env[phi] = vals[i]
 			}
@@ -261,6 +295,14 @@ func (w *World) exec(fr *frame, mem *Memory, b, pred *ssa.BasicBlock, skipPhis b
 				n, ok := int64(0), false
 				if ci != nil {
 					n, ok = ci.Concrete()
+				}
+				if !ok && w.forkScript != nil && w.forkPos < len(w.forkScript) {
+					// a driver explores both outcomes of this undecided branch
+					n, ok = 0, true
+					if w.forkScript[w.forkPos] {
+						n = 1
+					}
+					w.forkPos++
 				}
 				if !ok {
 					panic(&branchUndecided{in: in, fr: fr, cond: c})
@@ -421,6 +463,17 @@ func (w *World) doLoad(fr *frame, mem *Memory, in *ssa.UnOp) Value {
 	switch p := w.val(fr, in.X).(type) {
 	case *Ptr:
 		if p.G != nil {
+			if w.Globals && p.G.Pkg != nil && load.IsModule(p.G.Pkg.Pkg) {
+				v := w.globalInit(in, p.G)
+				for _, i := range p.Path {
+					agg, ok := v.(*Agg)
+					if !ok || i < 0 || i >= len(agg.E) {
+						panic(undecided{in, "load from " + p.String() + " (location not modelled)"})
+					}
+					v = agg.E[i]
+				}
+				return v
+			}
 			// contents of package-level variables are not modelled
 			return &Opaque{NonNil: true, Why: "contents of package-level variable " + p.G.Name()}
 		}
@@ -534,6 +587,110 @@ func refEqual(x, y Value) (eq, ok bool) {
 	return false, false
 }
 
+// globalInit evaluates the initialiser of a package-level variable: the
+// slice of the package initialiser that computes the values stored to it
+// (directly or through element / field addresses).
+func (w *World) globalInit(at ssa.Instruction, g *ssa.Global) Value {
+	if v, ok := w.globalVal[g]; ok {
+		return v
+	}
+	init := g.Pkg.Func("init")
+	rootOf := func(a ssa.Value) ssa.Value {
+		for {
+			switch x := a.(type) {
+			case *ssa.IndexAddr:
+				a = x.X
+			case *ssa.FieldAddr:
+				a = x.X
+			default:
+				return a
+			}
+		}
+	}
+	need := map[ssa.Instruction]bool{}
+	var want func(x ssa.Value)
+	var addr func(a ssa.Instruction)
+	addr = func(a ssa.Instruction) { // an address derived from a needed allocation
+		av, _ := a.(ssa.Value)
+		if av == nil || av.Referrers() == nil {
+			return
+		}
+		for _, ref := range *av.Referrers() {
+			switch r := ref.(type) {
+			case *ssa.Store:
+				if r.Addr == av && !need[r] {
+					need[r] = true
+					want(r.Val)
+				}
+			case *ssa.IndexAddr, *ssa.FieldAddr:
+				if !need[ref] {
+					need[ref] = true
+					addr(ref)
+				}
+			}
+		}
+	}
+	want = func(x ssa.Value) {
+		in, ok := x.(ssa.Instruction)
+		if !ok || need[in] {
+			return
+		}
+		need[in] = true
+		var ops []*ssa.Value
+		for _, op := range in.Operands(ops) {
+			if *op != nil {
+				want(*op)
+			}
+		}
+		if _, isAlloc := x.(*ssa.Alloc); isAlloc {
+			addr(in)
+		}
+	}
+	stores := 0
+	var blocks []*ssa.BasicBlock
+	if init != nil {
+		for _, b := range init.Blocks {
+			used := false
+			for _, in := range b.Instrs {
+				if st, ok := in.(*ssa.Store); ok && rootOf(st.Addr) == ssa.Value(g) {
+					stores++
+					used = true
+					need[st] = true
+					want(st.Val)
+					want(st.Addr)
+				}
+			}
+			if used {
+				blocks = append(blocks, b)
+			}
+		}
+	}
+	t := g.Type().(*types.Pointer).Elem()
+	v := zeroValue(t)
+	if stores > 0 {
+		if len(blocks) != 1 {
+			panic(undecided{at, "package-level variable " + g.Name() + " is initialised in more than one block of the package initialiser"})
+		}
+		mem := newMemory()
+		fr := &frame{fn: init, env: map[ssa.Value]Value{}, depth: 1, globals: map[*ssa.Global]*Ptr{g: w.alloc(mem, t, v)}}
+		saveCall, saveAfter, savePhis, saveCur, saveGlobals := w.OnCall, w.AfterCall, w.OnPhis, w.cur, w.Globals
+		w.OnCall, w.AfterCall, w.OnPhis, w.Globals = nil, nil, nil, false
+		for _, in := range blocks[0].Instrs {
+			if need[in] {
+				w.step(fr, mem, in)
+			}
+		}
+		v = mem.objs[fr.globals[g].Obj]
+		w.OnCall, w.AfterCall, w.OnPhis, w.cur, w.Globals = saveCall, saveAfter, savePhis, saveCur, saveGlobals
+		w.Stats["package-level variables evaluated from their initialiser"]++
+	}
+	if w.globalVal == nil {
+		w.globalVal = map[*ssa.Global]Value{}
+	}
+	w.globalVal[g] = v
+	return v
+}
+
 // ---------------------------------------------------------------------------
 // calls
 
@@ -624,7 +781,29 @@ func (w *World) builtin(fr *frame, mem *Memory, call *ssa.Call, b *ssa.Builtin) 
 // PutUint32,PutUint64} on byte windows.
 func (w *World) external(mem *Memory, call *ssa.Call, fn *ssa.Function, args []Value) (Value, bool) {
 	obj, _ := fn.Object().(*types.Func)
-	if obj != nil && obj.Pkg() != nil && obj.Pkg().Path() == "math/bits" && w.WrapMode && (obj.Name() == "Add64" || obj.Name() == "Sub64") && len(args) == 3 {
+	if obj != nil && obj.Pkg() != nil && obj.Pkg().Path() == "math/bits" && (w.WrapMode || w.Carries) && obj.Name() == "Mul64" && len(args) == 2 {
+		x, ok1 := args[0].(*Int)
+		y, ok2 := args[1].(*Int)
+		if !ok1 || !ok2 {
+			return nil, false
+		}
+		// hi*2^64 + lo = x*y exactly: the division identity on the 128-bit product
+		var p *Int
+		ar := x.R.Mul(y.R)
+		if a, ok := concOf(x); ok {
+			p = w.mkInt(y.F().ScaleInt(a), &ar)
+		} else if b, ok := concOf(y); ok {
+			p = w.mkInt(x.F().ScaleInt(b), &ar)
+		} else if w.Monomials {
+			p, _ = w.product(x, y)
+		}
+		if p == nil {
+			return &Tuple{[]Value{w.opaqueInt(Itv{bigZero, pow2m1(64)}, "high word of a product of two non-constant forms"), w.opaqueInt(Itv{bigZero, pow2m1(64)}, "low word of a product of two non-constant forms")}}, true
+		}
+		hi, lo := w.divmod(call, p, 64)
+		return &Tuple{[]Value{hi, lo}}, true
+	}
+	if obj != nil && obj.Pkg() != nil && obj.Pkg().Path() == "math/bits" && (w.WrapMode || w.Carries) && (obj.Name() == "Add64" || obj.Name() == "Sub64") && len(args) == 3 {
 		x, ok1 := args[0].(*Int)
 		y, ok2 := args[1].(*Int)
 		c, ok3 := args[2].(*Int)
